@@ -373,4 +373,6 @@ def check(ctx):
     check_struct_block(ctx)
     ctx.floor('strategy pairs of Int', ctx.units.get('strategy_pairs', 0), 2)
     ctx.floor('endianness fold cases', sum(1 for o in ctx.obs if o.rule == 'R9-endianness-fold'), 9)
+    from ..model import check_conf_plumbing
+    check_conf_plumbing(ctx, 'R9-conf-plumbing', 'endianness')
     ctx.trust(*ASSUMPTIONS)
